@@ -735,3 +735,67 @@ Proof.
   split; [exact P|]. split; [eapply rv_run_reach; [apply reach_refl|exact P]|].
   destruct (rv_run_bad_event _ _ _ _ _ _ E) as (e & N & X). rewrite Nat.sub_0_r in N. eauto.
 Qed.
+
+(* ---- the reset guard ---- *)
+(* the guarded variant IS the faithful model: every theorem about [reach] speaks of it *)
+Lemma rg_step_guarded tm l s : rg_step false tm l s = step_fn true tm l s.
+Proof. destruct l; reflexivity. Qed.
+
+Lemma rg_run_guarded tm ls : forall s, rg_run false tm ls s = run true tm ls s.
+Proof.
+  induction ls as [|l ls IH]; intro s; cbn [rg_run run]; [reflexivity|].
+  rewrite rg_step_guarded. destruct (step_fn true tm l s); [apply IH|reflexivity].
+Qed.
+
+(* the current source resets with CompareAndSwap(expected, standby): said by the constant
+   regenerated from resetToStandby and, independently, by the generated skeleton *)
+Definition rg_reset_op (k : skel) : option aop :=
+  match find (fun p => String.eqb (fst p) "resetToStandby") k with
+  | Some (_, SkIf (SkAtomic v op :: _) _ _ :: _) => if String.eqb v "relayStatus" then Some op else None
+  | _ => None
+  end.
+Definition rg_unguarded (k : skel) : bool := match rg_reset_op k with Some ACas => false | _ => true end.
+
+Lemma reset_guard_ok : rg_current = false /\ rg_unguarded Skel_relay.relay_skel = rg_current.
+Proof. split; reflexivity. Qed.
+
+Lemma conserved_O_b_false si s : conserved_O_b si s = false -> ~ conserved_O si s.
+Proof.
+  unfold conserved_O_b, conserved_O. intros H (A & B & C). apply andb_false_iff in H.
+  destruct H as [H|H]; [apply andb_false_iff in H; destruct H as [H|H]|]; apply list_eqb_false in H; contradiction.
+Qed.
+
+(* server chunks: trigger [9], end marker [7], second trigger [9], [8], [6]; one client chunk
+   [7] (an end marker).  First transfer confirmed; In reads [7] while transferring, sends it
+   and is delayed in front of its reset; the server's end marker resets the relay; the second
+   trigger makes it handshaking and [8] is parked; only now In's stale reset runs.  Without
+   the expected-state guard the relay is back in standby with [8] parked and a worker alive,
+   and [6] overtakes [8]. *)
+Definition reset_guard_witness : list label :=
+  [ LOutRead; LOutLoad; LOutDetect [9] true; LOutStoreH; LOutGo; LOutSend;
+    LHsAct 0 RdOk; LHsSendAct [101] true; LHsCfg 0 RdOk; LHsSendCfg [102];
+    LHsLock; LHsPopI; LHsPopO; LHsDone; LTlUnlock;
+    LInRead; LInLoad; LInSend;
+    LOutRead; LOutLoad; LOutBypass; LOutEnd true;
+    LOutRead; LOutLoad; LOutDetect [9] true; LOutStoreH; LOutGo; LOutSend;
+    LOutRead; LOutLoad; LOutLock; LOutReload; LOutAdd; LOutUnlockP;
+    LInEnd true;
+    LOutRead; LOutLoad; LOutDetect [6] false; LOutSend ].
+
+Theorem reset_guard_needed :
+  exists cs ss sched s, rg_run true false sched (init cs ss) = Some s /\ ~ conserved_O (concat ss) s
+    /\ clog s = [9; 102; 7; 9; 6] /\ flat (obr s) (obq s) = [8] /\ st s = StS /\ rg_stranded s = true.
+Proof.
+  exists [[7]], [[9]; [7]; [9]; [8]; [6]], reset_guard_witness.
+  eexists. split; [vm_compute; reflexivity|]. split; [|repeat split].
+  apply conserved_O_b_false. vm_compute. reflexivity.
+Qed.
+
+(* with the guard the same history up to and including the stale reset leaves the relay
+   handshaking with [8] parked for the worker to flush; the last four steps are then no path
+   (Out parks [6] behind [8] instead of forwarding it) *)
+Lemma reset_guard_witness_guarded :
+  (exists s, rg_run false false (firstn 35 reset_guard_witness) (init [[7]] [[9]; [7]; [9]; [8]; [6]]) = Some s
+     /\ st s = StH /\ rg_bad [7] [9; 7; 9; 8; 6] s = false) /\
+  rg_run false false reset_guard_witness (init [[7]] [[9]; [7]; [9]; [8]; [6]]) = None.
+Proof. split; [eexists; split; [vm_compute; reflexivity|split; reflexivity]|vm_compute; reflexivity]. Qed.
